@@ -120,7 +120,8 @@ func (runInfo *runInfoStruct) invokeLetMemberExpr(expr *ast.MemberExpr) {
 			runInfo.rv = nilValue
 			return
 		}
-		runInfo.err = env.SetValue(expr.Name, value)
+		// a module member is bound by value, like a name
+		runInfo.err = env.SetValue(expr.Name, detachValue(value))
 		if runInfo.err != nil {
 			runInfo.err = newError(expr, runInfo.err)
 			runInfo.rv = nilValue
